@@ -26,18 +26,60 @@ func stale(n int) []decimal.Word {
 	return z[:0]
 }
 
+// roomy returns a copy of w in an array with room for n words (and a little more), dirty beyond len(w).
+func roomy(w []decimal.Word, n int) []decimal.Word {
+	if n < len(w) {
+		n = len(w)
+	}
+	b := make([]decimal.Word, n+4)
+	for i := range b {
+		b[i] = decimal.Word(987654321987654321 + uint64(i)*104729)
+	}
+	copy(b, w)
+	return b[:len(w)]
+}
+
 // execNat runs the operations below the public API (through the verif hooks):
 // natural-number algorithms "N.*" and word kernels "K.*".
 func (m *machine) execNat(op string, s M) (any, bool) {
 	switch {
 	case op == "N.mul":
-		z := decimal.VerifMul(stale(int(num(s, "zlen"))), wordsOf(s, "x"), wordsOf(s, "y"))
+		x, y := wordsOf(s, "x"), wordsOf(s, "y")
+		z := stale(int(num(s, "zlen")))
+		switch alias, _ := s["zalias"].(string); alias { // the destination is an operand (z.Mul(z, y)): same array, spare capacity
+		case "x":
+			x = roomy(x, len(x)+len(y))
+			z = x
+		case "y":
+			y = roomy(y, len(x)+len(y))
+			z = y
+		}
+		z = decimal.VerifMul(z, x, y)
 		return M{"z": wordStrs(z), "thr": curThr}, true
 	case op == "N.sqr":
-		z := decimal.VerifSqr(stale(int(num(s, "zlen"))), wordsOf(s, "x"))
+		x := wordsOf(s, "x")
+		z := stale(int(num(s, "zlen")))
+		if alias, _ := s["zalias"].(string); alias == "x" {
+			x = roomy(x, 2*len(x))
+			z = x
+		}
+		z = decimal.VerifSqr(z, x)
 		return M{"z": wordStrs(z), "thr": curThr}, true
 	case op == "N.div":
-		q, r := decimal.VerifDiv(stale(int(num(s, "zlen"))), stale(int(num(s, "zlen"))), wordsOf(s, "u"), wordsOf(s, "v"))
+		u, v := wordsOf(s, "u"), wordsOf(s, "v")
+		z, z2 := stale(int(num(s, "zlen"))), stale(int(num(s, "zlen")))
+		switch alias, _ := s["zalias"].(string); alias { // the quotient's storage is the divisor's or the dividend's (z.Quo(x, z), z.Quo(z, y))
+		case "v":
+			v = roomy(v, len(u)+2)
+			z = v
+		case "u":
+			u = roomy(u, len(u)+2)
+			z = u
+		case "u2": // the remainder's storage is the dividend's
+			u = roomy(u, len(u)+2)
+			z2 = u
+		}
+		q, r := decimal.VerifDiv(z, z2, u, v)
 		return M{"q": wordStrs(q), "r": wordStrs(r), "thr": curThr, "rec": decimal.VerifDivRecursiveThreshold}, true
 	case op == "K.tables":
 		var rows []M
